@@ -99,6 +99,7 @@ func (e *Eng) obligations() {
 	e.codecConfig()
 	e.codecFlush()
 	e.marshalLiterals()
+	e.marshalWalkers()
 	e.apiOutcome()
 	e.readerLineTail()
 	e.modeFlag()
